@@ -42,7 +42,7 @@ def build_graph(n, fixed, perm, fold, mods=GRAPH_MODS, bounds=None, present=None
 
 
 # ------------------------------------------------------------------ C12
-def scc_task(n, perm, fold, fixed):
+def scc_task(n, perm, fold, fixed, audit=True):
     """all graphs on n nodes (minus forked bits): compute_SCCs == mutual reachability classes"""
     import pyModelChecking.graph as G
     see.reset()
@@ -82,7 +82,7 @@ def scc_task(n, perm, fold, fixed):
         res['model'] = {k: v for k, v in m.items()}
     tw = d.holds(same[0]) if same else 'sat'
     res['twin'] = tw
-    if fold:
+    if fold and audit:
         res['audit'] = d.audit()
     res.update(d.stats())
     d.close()
